@@ -269,8 +269,8 @@ pub struct Report {
 }
 
 fn known_findings() -> Vec<(String, String, String)> {
-    let p = "/verif/known_findings.json";
-    let Ok(s) = std::fs::read_to_string(p) else { return vec![] };
+    let p = format!("{}/known_findings.json", crate::paths::verif_root());
+    let Ok(s) = std::fs::read_to_string(&p) else { return vec![] };
     let Ok(v) = serde_json::from_str::<Value>(&s) else { return vec![] };
     v["known"]
         .as_array()
@@ -327,8 +327,8 @@ impl Report {
             }
             violations += 1;
             let fp = fp_of(&(fnd.failure.signature.clone(), fnd.bytes.clone()));
-            let _ = std::fs::create_dir_all("/verif/replays");
-            let path = format!("/verif/replays/{}-{:016x}.json", self.id, fp);
+            let _ = std::fs::create_dir_all(format!("{}/replays", crate::paths::verif_root()));
+            let path = format!("{}/replays/{}-{:016x}.json", crate::paths::verif_root(), self.id, fp);
             let rec = json!({
                 "property": self.id,
                 "sub_check": fnd.sub,
@@ -387,8 +387,8 @@ impl Report {
             "wall_s": self.started.elapsed().as_secs_f64(),
             "violations": violations,
         });
-        let _ = std::fs::create_dir_all("/verif/evidence");
-        let path = format!("/verif/evidence/{}.json", self.id);
+        let _ = std::fs::create_dir_all(format!("{}/evidence", crate::paths::verif_root()));
+        let path = format!("{}/evidence/{}.json", crate::paths::verif_root(), self.id);
         if let Err(e) = std::fs::write(&path, serde_json::to_string_pretty(&ev).unwrap()) {
             println!("MACHINERY-ERROR property={} cannot write evidence: {}", self.id, e);
             return 2;
@@ -426,7 +426,7 @@ pub fn load_case_bytes(path: &str) -> Option<Vec<u8>> {
 /// Replays every committed corpus case of a sub-check.
 pub fn replay_corpus(id: &str, sub: &str, f: &CaseFn) -> Outcome {
     let mut out = Outcome::default();
-    let dir = format!("/verif/corpus/{}", id);
+    let dir = format!("{}/corpus/{}", crate::paths::verif_root(), id);
     let Ok(rd) = std::fs::read_dir(&dir) else { return out };
     let mut paths: Vec<_> = rd.filter_map(|e| e.ok()).map(|e| e.path()).collect();
     paths.sort();
